@@ -17,7 +17,7 @@
 //
 //	new srv <serverip8hex>                   => ok t=<unix> d=<delta>
 //	setcfg <mac12hex> <ip8hex> <ifindex>     => d=<delta>                  Loader.SetServerConfig (what Server.Start does)
-//	addpool <id> <net8hex>/<plen> <gw8hex> <dns8hex,…|-> <leaseSecs> <vlan> <class>   => ok d=<delta> | err …
+//	addpool <id> <net8hex>/<plen> <gw8hex> <dns8hex,…|-> <leaseSecs|Nms> <vlan> <class>   => ok d=<delta> | err …
 //	slow <dhcp-payload-hex>                  => q=<kind>:<mac>:<giaddr>:<cid|none>:<opt50|-> r=<reply-hex|none> sv=<type:yiaddr:54:51:1:3:6|-> L=<leases> C=<cid index> d=<delta>
 //	cleanup                                  => L=… C=… d=…                 one cleanupExpiredLeases pass
 //	tick <seconds> | tickms <ms>             => ok                          virtual time passes
@@ -436,7 +436,18 @@ func (r *run) Do(op string) string {
 			id, e1 := strconv.ParseUint(f[1], 10, 32)
 			np := strings.SplitN(f[2], "/", 2)
 			gw := ip4(f[3])
-			secs, e2 := strconv.ParseInt(f[5], 10, 64)
+			// lease time: `<n>` seconds or `<n>ms`
+			var leaseDur time.Duration
+			var e2 error
+			if strings.HasSuffix(f[5], "ms") {
+				var n int64
+				n, e2 = strconv.ParseInt(strings.TrimSuffix(f[5], "ms"), 10, 64)
+				leaseDur = time.Duration(n) * time.Millisecond
+			} else {
+				var n int64
+				n, e2 = strconv.ParseInt(f[5], 10, 64)
+				leaseDur = time.Duration(n) * time.Second
+			}
 			vlan, e3 := strconv.ParseUint(f[6], 10, 32)
 			class, e4 := strconv.ParseUint(f[7], 10, 8)
 			if e1 != nil || len(np) != 2 || ip4(np[0]) == nil || gw == nil || e2 != nil || e3 != nil || e4 != nil {
@@ -452,7 +463,7 @@ func (r *run) Do(op string) string {
 				}
 			}
 			pool, err := dhcp.NewPool(dhcp.PoolConfig{ID: uint32(id), Name: "p" + f[1], Network: ip4(np[0]).String() + "/" + np[1],
-				Gateway: gw.String(), DNSServers: dns, LeaseTime: time.Duration(secs) * time.Second,
+				Gateway: gw.String(), DNSServers: dns, LeaseTime: leaseDur,
 				ClientClass: dhcp.ClientClass(class), VlanID: uint32(vlan)})
 			if err != nil {
 				return "err newpool"
